@@ -419,7 +419,7 @@ def run_c06(tier, seed, scale, verif):
                 if kind == "listed" and hit:
                     where = "user" if w in user else "file" if w in filew else "curated"
                     shape = shape_u if w in user else shape_f if w in filew else "-"
-                    twin = "lower-case-of-capitalised-entry" if w in mat["lower_of_capitalised"] else "plain"
+                    twin = "other-dialect-twin" if w in mat.get("twin_is_dialect_tagged", []) else "lower-case-of-capitalised-entry" if w in mat["lower_of_capitalised"] else "plain"
                     out.append({"prop": "C06", "sig": "ls.flagged-listed-word@%s/%s/%s" % (where, shape, twin), "count": 1, "wlen": len(text), "witness": wit,
                                 "detail": "%r is listed in the %s dictionary (file written with %s line ends) but published as a spelling error: %r" % (w, where, shape, hit[0])})
                 if kind == "unlisted" and not any(d[0] == a and d[1] == b for d in spelling):
